@@ -15,6 +15,7 @@ import json
 import math
 import multiprocessing
 import os
+import re
 import pathlib
 import random
 import select
@@ -390,6 +391,11 @@ class OutText(io.TextIOWrapper):
 
     def write(self, text):
         s = CUR
+        if s is not None and is_main() and self._kind == "out" and getattr(s, "stdout_gone", False):
+            # the reader of Conductor's own stdout has gone away (`cond run ... | head`, Ctrl-C kills the
+            # whole pipeline): unbuffered / line-buffered writes fail from now on
+            s.count("fault.own_stdout_closed_by_reader")
+            raise BrokenPipeError(errno.EPIPE, "Broken pipe")
         if s is not None and is_main() and text.strip():
             s.emit(self._kind, text)
         return super().write(text)
@@ -820,10 +826,26 @@ def _is_task_command(args):
     return False
 
 
+_TAR_KILLED_SCRIPT = (
+    'tar "$@" || exit $?\n'
+    'f=$(find "$4" -type f ! -name "*.sqlite" | LC_ALL=C sort | tail -n 1)\n'
+    '[ -n "$f" ] && rm -f "$f"\n'
+    'kill -KILL $$\n')
+
+
 def _sh_fork_exec(*a):
     s = CUR
     if s is None or not is_main() or not _is_task_command(a[0]):
         if s is not None:
+            try:
+                argv = [os.fsdecode(x) for x in a[0]]
+            except Exception:
+                argv = []
+            if (s.op or {}).get("tar_killed") and len(argv) == 5 and argv[0] == "tar" and argv[1] == "xzf" and argv[3] == "-C":
+                # fault: the tar child is killed by a signal (OOM killer, `kill`) after it has extracted
+                # everything but its last file, while Conductor itself survives
+                s.count("fault.tar_child_killed_by_signal")
+                a = (["/bin/sh", "-c", _TAR_KILLED_SCRIPT, "sh"] + argv[1:], (b"/bin/sh",)) + tuple(a[2:])
             # a real helper process (tar): its exec-error pipe is read with a real blocking read
             s.real_fds.add(a[12])
         return REAL.fork_exec(*a)
@@ -888,6 +910,10 @@ def _sh_signal(sig, h):
         return REAL.signal(sig, h)
     old = s.handlers.get(sig, signal.SIG_DFL)
     s.handlers[sig] = h
+    if sig == signal.SIGCHLD and getattr(s, "real_chld_fault", False):
+        # the inherited SIG_IGN is a real disposition of this process (it decides what waitpid() says
+        # about the real tar child): what the program sets replaces it
+        REAL.signal(signal.SIGCHLD, signal.SIG_IGN if h == signal.SIG_IGN else signal.SIG_DFL)
     s.registered.add(int(sig))
     s.emit("sigreg", signal.Signals(sig).name, getattr(h, "__name__", str(h)))
     s.after_call()
@@ -975,6 +1001,18 @@ def _fs_logger(name, real, path_arg):
 
     shim.__name__ = name
     return shim
+
+
+_logged_mkdir = _fs_logger("mkdir", REAL.mkdir, 0)
+_RE_TASK_OUT = re.compile(r"^(?:(.*)/)?([A-Za-z0-9_-]+)\.task(?:\.[0-9]+)?$")
+
+
+def _sh_mkdir(*a, **kw):
+    """os.mkdir with one injectable fault: creating a task's output directory fails (disk full)"""
+    s = CUR
+    if s is not None and is_main() and not s.in_cb:
+        s.maybe_fail_mkdir(os.fspath(a[0]))
+    return _logged_mkdir(*a, **kw)
 
 
 class _FakeDatetimeMod_unused:
@@ -1094,7 +1132,7 @@ def install():
     time.time = _sh_time
     sqlite3.connect = _sh_sqlite_connect
     multiprocessing.cpu_count = _sh_cpu_count
-    os.mkdir = _fs_logger("mkdir", REAL.mkdir, 0)
+    os.mkdir = _sh_mkdir
     os.symlink = _fs_logger("symlink", REAL.symlink, 1)
     os.unlink = _fs_logger("unlink", REAL.unlink, 0)
     concurrent.futures.ThreadPoolExecutor = _ExecutorSwitch
@@ -1142,6 +1180,7 @@ class Inv:
         self.killed = False
         self.n = 0
         self.cp = 0
+        self.cp_marks = []
         self.ki = 0
         self.sig_where = None
         self.kill_where = None
@@ -1188,6 +1227,7 @@ class Sim:
         self.conns = []
         self.n = 0
         self.cp = 0
+        self.cp_marks = []       # (check point number, +1 spawn / -1 reap): where processes are in flight
         self.ki = 0
         self.in_cb = 0
         self.next_async = 1 << 60
@@ -1220,6 +1260,27 @@ class Sim:
                 pass
 
     # -- kernel ---------------------------------------------------------------------------
+    def maybe_fail_mkdir(self, p):
+        if not (self.op or {}).get("scripts"):
+            return
+        if not os.path.isabs(p):
+            p = os.path.join(os.getcwd(), p)
+        pre = os.path.join(self.root_s, "cond-out") + "/"
+        if not p.startswith(pre) or os.path.lexists(p):
+            return
+        m = _RE_TASK_OUT.match(p[len(pre):])
+        if not m:
+            return
+        task = "//%s:%s" % (m.group(1) or "", m.group(2))
+        if task not in self.op["scripts"]:
+            return
+        execno = sum(1 for sp in self.spawns if sp["task"] == task) + \
+            sum(1 for e in self.trace if e[0] == "launchfail" and e[1] == task)
+        if self.script_for(task, execno).get("launch") == "mkdir":
+            self.emit("launchfail", task, "mkdir")
+            self.count("fault.output_directory_creation_failure")
+            raise OSError(errno.ENOSPC, os.strerror(errno.ENOSPC), p)
+
     def script_for(self, task, execno):
         sc = (self.op or {}).get("scripts", {})
         lst = sc.get(task)
@@ -1298,6 +1359,7 @@ class Sim:
         }
         self.spawns.append(sp)
         self.emit("spawn", p.name, env.get("COND_SLOT"), call_setsid)
+        self.cp_marks.append((self.cp, 1))
         if launch in ("exec", "chdir"):
             # the way _posixsubprocess reports a failing exec / chdir in the child
             self.count("fault.exec_failure")
@@ -1315,6 +1377,8 @@ class Sim:
         at the next check point of the main thread) and, if a wakeup fd is set, a byte is written to it"""
         self.pending.add(int(signum))
         self.sig_seq += 1
+        if (self.op or {}).get("stdout_gone_on_signal") and int(signum) in (int(signal.SIGINT), int(signal.SIGTERM)):
+            self.stdout_gone = True
         fd = self.wakeup_fd
         h = self.handlers.get(int(signum), signal.SIG_DFL)
         if fd is not None and fd >= 0 and callable(h):
@@ -1508,6 +1572,7 @@ class Sim:
                 if p.state == "zombie":
                     p.state = "reaped"
                     self.emit("reap", p.name, "any:" + sys._getframe(2).f_code.co_name)
+                    self.cp_marks.append((self.cp, -1))
                     return p.pid, p.status
             if any(p.state == "running" for p in self.procs.values()):
                 if not (flags & os.WNOHANG):
@@ -1520,6 +1585,7 @@ class Sim:
         if p.state == "zombie":
             p.state = "reaped"
             self.emit("reap", p.name, "pid:" + sys._getframe(2).f_code.co_name)
+            self.cp_marks.append((self.cp, -1))
             return pid, p.status
         if not (flags & os.WNOHANG):
             # a blocking wait on one child: let the environment run until it exits
@@ -1527,6 +1593,7 @@ class Sim:
             if p.state == "zombie":
                 p.state = "reaped"
                 self.emit("reap", p.name, "pid:" + sys._getframe(2).f_code.co_name)
+                self.cp_marks.append((self.cp, -1))
                 return pid, p.status
             raise ChildProcessError(errno.ECHILD, "No child processes")
         return 0, 0
@@ -1751,6 +1818,15 @@ class Sim:
             # with SIGINT ignored)
             self.handlers[int(getattr(signal, "SIG" + nm))] = signal.SIG_IGN
         self.kill_at = op.get("kill")
+        self.stdout_gone = False
+        # SIGCHLD inherited as ignored matters for the REAL helper processes (tar): the kernel then reaps
+        # them itself and waitpid() answers ECHILD
+        real_chld = None
+        self.real_chld_fault = False
+        if "CHLD" in op.get("sig_ign", []):
+            real_chld = REAL.signal(signal.SIGCHLD, signal.SIG_IGN)
+            self.real_chld_fault = True
+            self.count("fault.SIGCHLD_inherited_as_ignored")
 
         MONITOR.set_enabled(bool(self.knobs.get("mon", True)))
 
@@ -1850,6 +1926,9 @@ class Sim:
                 p.fds = {}
             restore_pristine_state()
             subprocess._active.clear()
+            if real_chld is not None:
+                REAL.signal(signal.SIGCHLD, real_chld)
+                self.real_chld_fault = False
             sys.argv = saved_argv
             os.chdir(saved_cwd)
             os.environ.clear()
@@ -1863,6 +1942,7 @@ class Sim:
         inv.trace = self.trace
         inv.spawns = self.spawns
         inv.n, inv.cp, inv.ki = self.n, self.cp, self.ki
+        inv.cp_marks = list(self.cp_marks)
         inv.sig_where = self.sig_where
         inv.plan = self.sched.recorded()
         inv.t1 = self.clock
